@@ -82,3 +82,6 @@ pub mod lift;
 pub mod sr;
 
 mod utils;
+
+#[cfg(feature = "verif-hooks")]
+pub mod verif;
